@@ -2,7 +2,7 @@
 REG = dict(
     engine='E1-enum',
     technique='bounded-exhaustive enumeration of error sites (the C02 call grid plus user-call / syntax-form errors, in three contexts), each replayed as run + 3 x :resume on the real JSON-session handler',
-    text="Every case of the C02 grid (every public built-in/prelude function and method x argument vectors over the 20-value pool, full product for <=2 positions and deviation-bounded beyond, arity n-1/n+1; every binary operator and +=/-= over pool x pool; the syntax forms x pool) plus user-function/closure/method arity and type errors, throw, assert, let hints, destructuring, match without a case, struct-literal errors, return-type errors, unknown variable/method/field and failing subexpressions with live siblings. A first pass (`run` job) keeps the cases that raise a Garden exception or assertion. Each is then sent to a fresh JSON session (real handle_request_in_worker on one Env) at top level, inside a called function and inside a block inside a loop, followed by three `:resume` requests with nothing changed (prefixes cover 1 and 2 resumes). Oracle: every resume response is an error with the same message text and the same position as the first one. Exhaustive within the pool and deviation bound.",
+    text="Every case of the C02 grid (every public built-in/prelude function and method x argument vectors over the 20-value pool, full product for <=2 positions and deviation-bounded beyond, arity n-1/n+1; every binary operator and +=/-= over pool x pool and over 10 operand pairs whose swap changes the outcome; the syntax forms x pool) plus user-function/closure/method arity and type errors, throw, assert, let hints, destructuring, match without a case, struct-literal errors, return-type errors, unknown variable/method/field and failing subexpressions with live siblings. A first pass (`run` job) keeps the cases that raise a Garden exception or assertion. Each is then sent to a fresh JSON session (real handle_request_in_worker on one Env) at top level, inside a called function and inside a block inside a loop, followed by three `:resume` requests with nothing changed (prefixes cover 1 and 2 resumes). Oracle: every resume response is an error with the same message text and the same position as the first one. Exhaustive within the pool and deviation bound.",
     note="Quick tier: deviation bound 1 and, per context, one representative per (callee, argument-kind vector, first-error class); thorough: every vector, deviation bound 2. `stack` text is not compared. The first response renders every assertion as 'Assertion failed' (json_session::err_to_response) whereas :resume renders the assertion's own message (eval_to_response): for assertions the reference message is the one the `run` job reports. Effectful built-ins run unsandboxed in a scratch directory (not the shell's run); read_line is excluded. One violation signature per (callee, first-error class, how the resumed error differs); argument-kind vectors, contexts and the index of the first differing resume are in the detail.",
     design_ref='DESIGN.md §6 C07',
 )
@@ -110,6 +110,18 @@ def cases(ctx, dev):
         for a in pool:
             for b in pool:
                 out.append((f"operator {u}", f"({POOL_KIND[a]}, {POOL_KIND[b]})", "", [f"let x = {a}", f"x {u} {b}"], CONTEXTS, False))
+    # operand pairs whose swap changes the outcome (a resume that re-applies the operator to its operands in the other order
+    # gives a value, or another error, instead of the same error): small with large, zero with non-zero, negative with positive
+    ASYM = [("7", "40"), ("40", "7"), ("1", "0"), ("0", "1"), ("2", "-1"), ("-1", "2"), ("-7", "3"), ("3", "-7"), ("3", "9223372036854775807"), ("9223372036854775807", "3")]
+    for op in ("+", "-", "*", "/", "%", "**", "<", "<="):
+        for a, b in ASYM:
+            out.append((f"operator {op}", f"(Int {a}, Int {b})", "", [f"{a} {op} {b}"], CONTEXTS, False))
+    for op in ("+.", "-.", "*.", "/."):
+        for a, b in (("7.0", "0.0"), ("0.0", "7.0"), ("1.5", "0.0")):
+            out.append((f"operator {op}", f"(Float {a}, Float {b})", "", [f"{a} {op} {b}"], CONTEXTS, False))
+    for u in ("+=", "-="):
+        for a, b in ASYM[-2:]:
+            out.append((f"operator {u}", f"(Int {a}, Int {b})", "", [f"let x = {a}", f"x {u} {b}"], CONTEXTS, False))
     seen_forms = set()
     for form, ctxs in [(f, CONTEXTS) for f in C02_FORMS + EXTRA_FORMS] + [(f, ("top",)) for f in TOP_ONLY_FORMS]:
         if form in seen_forms:
